@@ -4,7 +4,7 @@ PROP = {
     "bin": "c07",
     "prop_file": "Properties/C07.v",
     "model_files": ["Postings/VInt.v", "Postings/FieldNorm.v", "Postings/Codec.v", "Postings/BP4x.v", "Postings/Positions.v",
-                    "Postings/Spec.v", "Postings/Reuse.v", "Postings/Merge.v", "Postings/Cases.v"],
+                    "Postings/Spec.v", "Postings/Reuse.v", "Postings/Merge.v", "Postings/Grouping.v", "Postings/Cases.v"],
     "level": "proof",
     "engine": "E5-codecs",
     "level_text": "Proof: the posting-list codec (PostingsSerializer/SkipSerializer vs SkipReader/BlockSegmentPostings: 128-document blocks, "
